@@ -9,6 +9,11 @@ def run():
         extra_rule="C03 clauses: at every frame the cost the implementation reports for the compound edit equals the "
                    "sum of the costs of the events listed inside it; the annotated tree's edited_cost(), the sum over "
                    "get_all_edits() and the fully refined top-level bounds all equal the script total.")
+    # the loops that produce the three views (L2 model: spec/Driver.tla): every environment TLC enumerates is rebuilt out of
+    # real objects and driven through the real get_all_edit_contexts / diff / edited_cost
+    from harness.common import tier
+    from props import _driver
+    _driver.check(chk, tier())
     return chk.finish()
 
 
